@@ -178,7 +178,7 @@ def ORIG_clean_by_tomo_mask(self, tomo_list, tomo_masks, inplace=True, output_fi
 
     for i, t in enumerate(tomos):
         tm = self.get_motl_subset(t, reset_index=True)
-        coords = ORIG_get_coordinates(tm).astype(int)
+        coords = np.floor(ORIG_get_coordinates(tm)).astype(int)
         if requries_loading:
             tomo_mask = cryomap.binarize(tomo_masks[i])
 
@@ -738,7 +738,7 @@ def make_mask(rng, shape):
 
 
 def oracle_mask(before, tomo_ids, masks):
-    p = np.trunc(positions(before)).astype(int)
+    p = np.floor(positions(before)).astype(int)
     remove = np.zeros(len(before), dtype=bool)
     tid = before["tomo_id"].to_numpy()
     for t, mk in zip(tomo_ids, masks):
